@@ -33,7 +33,8 @@ namespace fastscapelib
             {
                 std::unique_lock<std::mutex> lk(m_cv_m);
                 ++m_paused_count;
-                m_cv.wait(lk);
+                // wait until resume() is called (ignore spurious wake-ups)
+                m_cv.wait(lk, [this]() { return m_resumed; });
                 --m_paused_count;
             };
     }
@@ -71,6 +72,10 @@ namespace fastscapelib
         if (!m_paused)
         {
             wait();
+            {
+                std::unique_lock<std::mutex> lk(m_cv_m);
+                m_resumed = false;
+            }
             set_tasks(m_pause_jobs);
             run_tasks();
             m_paused = true;
@@ -93,6 +98,7 @@ namespace fastscapelib
                 // paused until it actually waits: taking it here ensures that no
                 // worker misses the notification
                 std::unique_lock<std::mutex> lk(m_cv_m);
+                m_resumed = true;
                 m_cv.notify_all();
             }
             m_paused = false;
